@@ -2,6 +2,8 @@ package core
 
 import (
 	"context"
+	"fmt"
+	"net/http"
 	"sync/atomic"
 	"time"
 
@@ -90,6 +92,16 @@ func (b *BaseProxyComponents) RecordSuccess(endpoint *domain.Endpoint, latency i
 	if b.StatsCollector != nil && endpoint != nil {
 		b.StatsCollector.RecordRequest(endpoint, "success", time.Duration(latency)*time.Millisecond, bytes)
 	}
+}
+
+// RecordResponse records a relayed backend answer: an error status (4xx/5xx) that
+// reached the client counts as a failed request, everything else as a success.
+func (b *BaseProxyComponents) RecordResponse(ctx context.Context, endpoint *domain.Endpoint, statusCode int, duration time.Duration, bytes int64) {
+	if statusCode >= http.StatusBadRequest {
+		b.RecordFailure(ctx, endpoint, duration, fmt.Errorf("backend answered with status %d", statusCode))
+		return
+	}
+	b.RecordSuccess(endpoint, duration.Milliseconds(), bytes)
 }
 
 // RecordFailure records a failed request
